@@ -14,7 +14,7 @@ CHECKS = {
              "interpreter under ASan+UBSan for every arithmetic/bitwise operator and conversion; each result is read back as an exact typed value and "
              "compared with a reference model (Python integers mod 2^64, IEEE doubles via Python/libm). The enumeration is complete within the lattice; "
              "it says nothing about operands outside it."
-             ' Every pair is evaluated with the operands as variables and as temporaries of the same value (4 forms; the variables must be unchanged), and the whole lattice is explored twice: against the clang ASan+UBSan build and against a gcc -O2 build.',
+             ' Every pair is evaluated with the operands as variables and as temporaries of the same value (4 forms; the variables must be unchanged), and the whole lattice is explored twice: against the clang ASan+UBSan build and against a gcc -O2 build. Round 6: a mixed integer / decimal operation answers like the same operation with the integer operand converted by num() first (value or DIVIDE_BY_ZERO).',
         note="trusted: the reference model, Python floats and libm pow/fmod, clang sanitizers; operands bound through the C++ API (exact bits)",
         design="DESIGN.md section 4, C03"),
     "C04": dict(
@@ -40,7 +40,7 @@ CHECKS = {
              "from non-termination; probe statements then check in the same context that no iterator constraint, table lock, pending break/continue, control "
              "entry or block level is left behind."
              ' Added: bodies that change the variables the bounds and the step were taken from (evaluated once); every if / elsif / else chain of <= 3 rules over {true, false, null} at top level, in a loop and in a function; the header family also against the gcc -O2 build.'
-             ' break / continue where no loop of the same function or program runs (10 programs, C++ and C API routes). Mutators reached through a path expression (tt.at(0)) while a row of tt, or tt itself, is iterated: refused, table unchanged, modifiable afterwards. Round 5: forall over 10 kinds of table expression x 3 orders x 4 lengths x 3 bodies.',
+             ' break / continue where no loop of the same function or program runs (10 programs, C++ and C API routes). Mutators reached through a path expression (tt.at(0)) while a row of tt, or tt itself, is iterated: refused, table unchanged, modifiable afterwards. Round 5: forall over 10 kinds of table expression x 3 orders x 4 lengths x 3 bodies. Round 6: writes through the iterator into null elements (rows, strings, bytes, integers, nested, in a function).',
         note="trusted: the reference interpreter (structured semantics of the manual), the step budget (200000 statements) as the non-termination verdict",
         design="DESIGN.md section 4, C06"),
     "C07": dict(
@@ -82,7 +82,7 @@ CHECKS = {
              "earlier deep or failed recursions) must succeed up to 255 nested calls and raise the recursion-limit error at the 256th, and LeakSanitizer "
              "must be silent after histories containing failing calls."
              ' Added: calls nested in their own argument lists in the call alphabets, the same callee reached at several nesting levels, recursion-limit probes below k+1 levels of another function after earlier calls at other levels.'
-             ' Calls as the operand of a program-level return; a function defined again after its earlier definition was called (6 x 6 bodies x 4 histories); error@1 outside handlers after a call whose handler raised; a built-in that fails at the second evaluation of an argument. Round 5: a redefinition arriving in a text that calls the function first, or that is rejected; arguments of one call that change each other\'s variables.',
+             ' Calls as the operand of a program-level return; a function defined again after its earlier definition was called (6 x 6 bodies x 4 histories); error@1 outside handlers after a call whose handler raised; a built-in that fails at the second evaluation of an argument. Round 5: a redefinition arriving in a text that calls the function first, or that is rejected; arguments of one call that change each other\'s variables. Round 6: trace mode switched on by one call and locals re-typed by the branch a call took are gone for the next call; the error stream is compared too.',
         note="trusted: hand-written expected value per call, LeakSanitizer; histories longer than the bound are not covered",
         design="DESIGN.md section 4, C08"),
     "C10": dict(
@@ -112,7 +112,7 @@ CHECKS = {
              "tuple declarations of <=3 (quick, neighbourhood) / <=4 (thorough, all pairs) items over 6 item types are checked pairwise for type identity, "
              "and every mutator of a table under forall must be refused at compile time."
              ' Added: item / element expressions whose value changes from one evaluation to the next (11^3 sequences through tab, concat, put, insert): refused or uniform; level 1 also against the gcc -O2 build.'
-             ' Rows of a table of tables (one of them null) receiving what an opaque function hands back; containers made for objects of one module never hold objects of another (C17\'s wrong-module programs). Iterated-row lock family (shared with C06); typed declarations through a forall iterator (9 types x 4 tables x 3 wrappers) leave the table uniform. Round 5: refused-unchanged: 11 receivers (null row, null table, elements) x 5 mutators x 13 offending values: a refusal leaves every container as it was.',
+             ' Rows of a table of tables (one of them null) receiving what an opaque function hands back; containers made for objects of one module never hold objects of another (C17\'s wrong-module programs). Iterated-row lock family (shared with C06); typed declarations through a forall iterator (9 types x 4 tables x 3 wrappers) leave the table uniform. Round 5: refused-unchanged: 11 receivers (null row, null table, elements) x 5 mutators x 13 offending values: a refusal leaves every container as it was. Round 6: whatever is built from a copy of a container (7 sources x 6 ways to copy x 10 uses) equals what is built from the original; the 254-dimension limit through 6 constructors.',
         note="trusted: the Python list model; containers above 5 elements are not expanded; 48 tuple-declaration hash collisions are recorded findings (KNOWN_FINDINGS.txt)",
         design="DESIGN.md section 4, C09"),
     "C05": dict(
@@ -126,7 +126,7 @@ CHECKS = {
              "calls that mutate or return their parameter, and forall writes, for strings, bytes, tables (incl. tables of tables) and tuples; states are "
              "canonical dumps, and in every state the dump of {a, b, t, u} must equal a Python deep-copy model."
              ' (c) operand kinds: 130 typed signatures x {constant, variable, temporary, table element, tuple item, function result} per argument, each compared with its all-constant form in the same context, variables unchanged, re-evaluation in an unchanged state, and the same with an in-place method chained on the result; (d) storage locations (variable, forall iterator, for variable, parameter, local, table element, tuple item, returned value) x source kind x 56 reader expressions. (c) and (d) also against the gcc -O2 build.'
-             ' The alias search includes `return a / t / u / t.at(0)` steps (the host goes on using the context). Named constants (phi, pi, ee) are atoms of the vocabulary like literals.',
+             ' The alias search includes `return a / t / u / t.at(0)` steps (the host goes on using the context). Named constants (phi, pi, ee) are atoms of the vocabulary like literals. Round 6: one argument null (constant, variable) next to stored values in the other places, for every signature.',
         note="trusted: the deep-copy model; impure builtins (random, read, readln, input, getsys, getenv) are excluded from (a); objects are shared by design (C17)",
         design="DESIGN.md section 4, C05"),
     "C11": dict(
@@ -142,7 +142,7 @@ CHECKS = {
              "texts) must behave identically in the disturbed context and in an undisturbed twin. Thorough adds two more prefixes, all three routes for "
              "every text and chains of two rejected texts."
              ' Added: rejected texts declaring several functions or one function twice before the error; structured variables re-typed with another rank; texts that include a file (which redefines functions) successfully and fail later.'
-             ' Type-safe ($) variables holding tables and tuples assigned another structure by the rejected text. Rejected texts that give one variable two or three other types in a row; probe programs whose acceptance depends on each declared type. Round 5: path expressions of include / import with side effects in rejected texts (recorded finding, narrow key).',
+             ' Type-safe ($) variables holding tables and tuples assigned another structure by the rejected text. Rejected texts that give one variable two or three other types in a row; probe programs whose acceptance depends on each declared type. Round 5: path expressions of include / import with side effects in rejected texts (recorded finding, narrow key). Round 6: on the statement-wise route the prefix is compiled statement by statement too.',
         note="trusted: differential twin; names introduced only by the rejected text are ignored, as the property allows",
         design="DESIGN.md section 4, C11"),
     "C12": dict(
@@ -155,7 +155,7 @@ CHECKS = {
              "chained statements - T1 = unparse(compile(S)) must be accepted in a twin context, both programs must give the same output, result, error "
              "and final variables/functions, and unparse(compile(T1)) must equal T1. Sources the parser rejects are outside the domain and are skipped "
              "(counted separately)."
-             ' Added to the corpus: loop orders with run-time reversed bounds, parenthesised receivers of member operators, module object programs, integer-valued decimals needing 17 digits, statements chained after typed declarations. Every string literal of length <= 2 over the 8 escapes, both quotes and 5 characters without escape. Round 5: every byte value inside a constant; 30 argument shapes x 7 enclosed followers for print and put; INT64_MIN spellings; a rejected hand-written program is a harness error.',
+             ' Added to the corpus: loop orders with run-time reversed bounds, parenthesised receivers of member operators, module object programs, integer-valued decimals needing 17 digits, statements chained after typed declarations. Every string literal of length <= 2 over the 8 escapes, both quotes and 5 characters without escape. Round 5: every byte value inside a constant; 30 argument shapes x 7 enclosed followers for print and put; INT64_MIN spellings; a rejected hand-written program is a harness error. Round 6: typed parameters re-assigned in the body, with a use that only compiles for the declared type.',
         note="trusted: twin context as 'equivalent context'; the interactive save/load commands are driven by the C19 check",
         design="DESIGN.md section 4, C12"),
     "C13": dict(
@@ -169,7 +169,7 @@ CHECKS = {
              "command's file and stdin readers, against the same tokens one per line. Oracle: token stream (code, text), parse verdict and message, unparsed "
              "program and program output are equal to the reference delivery."
              ' Added routes for the long-line and line-length families: the reader of the include statement and the reader of the interactive mode.'
-             ' Lexemes aligned across byte 64 x 1023 (16, 65, 128 x 1023 in thorough) with blank padding. Byte content: sequences over EF BB BF (8 bytes in thorough) inside a literal at reader boundaries (line offsets around 1023 k, continuation lines) through bloc file and bloc -. Round 5: bloc_parse_expression with a line end (LF, CRLF) after any token of 12 expressions.',
+             ' Lexemes aligned across byte 64 x 1023 (16, 65, 128 x 1023 in thorough) with blank padding. Byte content: sequences over EF BB BF (8 bytes in thorough) inside a literal at reader boundaries (line offsets around 1023 k, continuation lines) through bloc file and bloc -. Round 5: bloc_parse_expression with a line end (LF, CRLF) after any token of 12 expressions. Round 6: expressions ended by a line end or by nothing.',
         note="trusted: the unsplit delivery as reference; // and # comments are line-anchored and are not joined onto long lines; a custom reader that passes CR through is compared with itself only",
         design="DESIGN.md section 4, C13"),
     "C02": dict(
@@ -203,7 +203,7 @@ CHECKS = {
              "orders (length <=5 / <=6) of clone, run in clone, run in original, purge original, free original, free clone, free executable are run "
              "against a sequential model under ASan."
              ' Added: programs reading clone-inherited variables as operands and `matches` with per-clone patterns; the sequential run in clones is compared with runs in contexts that were never cloned; the valid programs of the C01 corpus at 2 threads (bound 1 / 2) and under ThreadSanitizer.'
-             ' The orders program includes a source file (the included statements must run in the executing context).',
+             ' The orders program includes a source file (the included statements must run in the executing context). Round 6: programs in which every clone copies, stores and drops references to module objects inherited from the original (reference counter under TSan).',
         note="trusted: sufficiency of the instrumented points (checked by the TSan pass, not assumed); weak memory orderings are not modelled; more than 3 threads only in the TSan pass",
         design="DESIGN.md section 4, C14"),
     "C16": dict(
@@ -235,7 +235,7 @@ CHECKS = {
              "has exactly one destroy event. Ten programs offer a vmod2 object where vmod was compiled; no method or constructor of one module may run "
              "on an object of the other."
              ' Added: 11 carriers of a foreign object x 10 uses; loops refused at entry or dying in their body; 15 scripts + 4 interactive sessions through the bloc command (file, stdin, --out, -i) with every object destroyed exactly once by process end.'
-             ' Statements that return an object to a host that never collects it; the module logs foreign objects received as arguments; containers are checked against the module their type names. Re-evaluation of one use site with vmod then vmod2 objects (function with untyped parameter, loop over an undefined result); one statement with n object temporaries for 23 sizes up to 513 in 5 shapes. Round 5: a method storing a new object into its own receiver variable (INOUT object argument); a callee that raises while holding objects.',
+             ' Statements that return an object to a host that never collects it; the module logs foreign objects received as arguments; containers are checked against the module their type names. Re-evaluation of one use site with vmod then vmod2 objects (function with untyped parameter, loop over an undefined result); one statement with n object temporaries for 23 sizes up to 513 in 5 shapes. Round 5: a method storing a new object into its own receiver variable (INOUT object argument); a callee that raises while holding objects. Round 6: in-place members on tables / tuples built on the fly that take the object of a variable; forall over an element of a table variable.',
         note="trusted: the holder model; late destruction (before release) is allowed by the property and not flagged",
         design="DESIGN.md section 4, C17"),
     "C18": dict(
@@ -253,7 +253,7 @@ CHECKS = {
              "by Python's sqlite3 from the same database file: value and SQL type must match. Every method of the four modules is called with null / "
              "out-of-range / wrong-type-state arguments on fresh, closed and null objects. Every case runs in its own process under ASan+UBSan."
              ' Added: utf8 insert / concat of unicode strings (another one and itself) against Python, object arguments offered to utf8 (own, null, foreign through a function with a declared result type); files and read requests sized around the module buffer, long lines through readln; the sqlite3 prepared-statement path (bind, execute, fetch) against query().'
-             ' A prepared statement bound three times (values, nulls, values); a write without final newline in the quick file alphabet. Round 5: INOUT variables in every state; sqlite3 statement states (prepared, stepped, closed under it, reopened, finalized); the cursor of a prepared statement as a state machine (all sequences of length <= 5 / 7).',
+             ' A prepared statement bound three times (values, nulls, values); a write without final newline in the quick file alphabet. Round 5: INOUT variables in every state; sqlite3 statement states (prepared, stepped, closed under it, reopened, finalized); the cursor of a prepared statement as a state machine (all sequences of length <= 5 / 7). Round 6: well-formed text at the edges of every UTF-8 encoding length; file objects after a failed re-open; state reports (isopen) after failed operations.',
         note="trusted: Python codecs/sqlite3, the twin-file semantics; size arguments capped; plplot cannot be built here and is not claimed; two utf8 findings recorded (KNOWN_FINDINGS.txt)",
         design="DESIGN.md section 4, C18"),
     "C19": dict(
@@ -270,7 +270,7 @@ CHECKS = {
              "transcripts (prompts, echo, banner, Elapsed removed) print the same lines in the same order as the library's statement-at-a-time run; a saved "
              "session run again prints the same and saving the loaded session gives the same text."
              ' Added: 12 source bytes x 6 places through file / stdin / --out, option-like program arguments (-e, -i, --parse, --out=), a missing --out file is a violation, save / load sessions from the C12 statement programs.'
-             ' 33 compile errors at places computed from the text (after block / line comments, multi-line strings, tabs, blank lines, inside a loop) compared with the reported line:column. Argument vectors that repeat a word or contain the program operand (file, relative file, -); returned / -e strings containing %. Round 5: -e with one word / many words / --out, expressions beginning with a minus sign, words after a complete expression; every console command word as a variable in 7 statement forms; calls of functions named like commands.',
+             ' 33 compile errors at places computed from the text (after block / line comments, multi-line strings, tabs, blank lines, inside a loop) compared with the reported line:column. Argument vectors that repeat a word or contain the program operand (file, relative file, -); returned / -e strings containing %. Round 5: -e with one word / many words / --out, expressions beginning with a minus sign, words after a complete expression; every console command word as a variable in 7 statement forms; calls of functions named like commands. Round 6: equal signs inside the --out path; physical lines of 900 .. 3100 bytes through the interactive reader.',
         note="trusted: the library run as reference; the ASan build of the bloc executable; terminal colour codes are stripped",
         design="DESIGN.md section 4, C19"),
     "C15": dict(
@@ -287,7 +287,7 @@ CHECKS = {
              "single-token corruptions) is parsed through bloc_parse_executable and bloc_parse_expression, the context must still run a valid program, "
              "and no memory may remain after release."
              ' Added to the alphabet: host updates of a variable through its loaded pointer (assign literal / tabchar / null) followed by scripts reading it twice, handler-raises and forall-error executables, a tuple variable re-typed by a parse that is not executed, a table symbol registered by the host, trace flag and version calls.'
-             ' A parse error inside every kind of block (while, forall, if, else, begin, handler, function body, nested, empty while body) followed by a function definition. Invariant on every inspected value, including the caller\'s value after store_variable: a null value yields NULL data from every accessor that succeeds. Round 5: a symbol registered again with another type (5 x 4 type pairs x 5 things in between); life of evaluated values of every expression kind after the expression is freed; every operator with 11 x 11 operand kinds as rejected text.',
+             ' A parse error inside every kind of block (while, forall, if, else, begin, handler, function body, nested, empty while body) followed by a function definition. Invariant on every inspected value, including the caller\'s value after store_variable: a null value yields NULL data from every accessor that succeeds. Round 5: a symbol registered again with another type (5 x 4 type pairs x 5 things in between); life of evaluated values of every expression kind after the expression is freed; every operator with 11 x 11 operand kinds as rejected text. Round 6: refused stores leave the caller\'s value untouched; storing a variable\'s own value into another variable copies it.',
         note="trusted: the handle/ownership model in vf/props/c15.py; ASan/LSan of clang 14 (a g++-only leak found by reading is recorded as fixed)",
         design="DESIGN.md section 4, C15"),
 }
